@@ -472,6 +472,50 @@ class Plan:
             cases = [self.new_case(r, vs, cfg, script, f"cfg:{lab}") for lab, cfg in cfgs]
             self.add_group("C09", cases, "config_matrix")
 
+    # -- B3: every feature ALONE (and every explicit mode of it): the helper items it needs must come with it, and its
+    #        stand-alone code paths must behave like the ones taken next to other features (C09, C10)
+    def solo_cfgs(self):
+        rng = random.Random("solo")
+        decls = [("u8", [0, 1, 2, 3], "renames"), ("i8", [-10, -5, -4, 3], "renames"), ("i8", list(range(-100, 40)), "ident"),
+                 ("i16", [3 * j for j in range(10)], "renames"), ("i8", [-100, -50, 0, 50, 100], "ident"), ("i32", [-1, 0, 1000, (1 << 31) - 1], "ident"),
+                 ("usize", [7, (1 << 32) + 7], "ident"), ("u64", list(range(9, 18)), "ident"), ("u8", list(range(0, 256)), "ident"),
+                 ("i64", [-(1 << 63), -(1 << 63) + 1, 0, (1 << 63) - 2, (1 << 63) - 1], "renames")]
+        for r, reals, naming in decls:
+            gapless = runs_of(reals) == 1
+            vs = decorate(reals, r, rng, naming, "shuffle", "dec")
+            p = prim.Proj(r, True)
+            pr = {p.model_tmin(), p.model_tmax()}
+            for x in (reals if len(reals) <= 12 else reals[:3] + reals[-3:] + reals[126:130]):
+                for d in (-1, 0, 1):
+                    if prim.tmin(r) <= x + d <= prim.tmax(r):
+                        pr.add(p.to_model(x + d))
+            if len(reals) <= 12:
+                script = make_script(vs, r, sorted(pr), rng, level="light", str_cap=12, pairs_cap=12, pow2=True)
+            else:
+                bysort = sorted(vs, key=lambda v: v["real"])
+                sub = list({v["ident"]: v for v in bysort[:3] + bysort[-3:] + bysort[126:131]}.values())
+                script = make_script_large(vs, sub, r, sorted(pr), rng)
+            cfgs = [("all", cfg_full(None, None, None, None))]
+            for f in K_ALL:
+                modes = {"as_str": ["auto", "match", "table"], "from_str": ["auto", "match", "table"], "FromStr": ["auto", "match", "table"],
+                         "iter": ["auto", "next_and_back", "table", "table_inline"] + (["range"] if gapless else [])}.get(f, [None])
+                for m in modes:
+                    if f == "iter" and m == "table_inline" and len(reals) > 64:
+                        continue
+                    feats = [(f, {"mode": m} if m and m != "auto" else {})]
+                    cfgs.append((f"{f}:{m}", {"feats": feats if f != "range" else [("iter", {}), ("range", {})], "split": "one"}))
+                    if f == "iter" and m not in ("table_inline",):
+                        cfgs.append((f"{f}:{m}+range", {"feats": [("iter", {"mode": m} if m != "auto" else {}), ("range", {})], "split": "one"}))
+            # pairs that steer the auto modes / share helper tables
+            for a, b in (("Debug", "Display"), ("Debug", "names"), ("next", "next_back"), ("as_str", "names"), ("from_str", "FromStr"), ("IntoStr", "iter")):
+                cfgs.append((f"{a}+{b}", {"feats": [(f, {}) for f in K_ALL if f in (a, b)], "split": "one"}))
+            cases = []
+            for lab, cfg in cfgs:
+                c = self.new_case(r, vs, cfg, script, f"solo:{lab}")
+                c["pow2"] = True
+                cases.append(c)
+            self.add_group("C09", cases, "config_matrix")
+
     # -- B2: sorted(name) / sorted(value) must not change behaviour either (C09)
     def sorted_cfgs(self, n_decls):
         rng = self.rng
@@ -625,7 +669,10 @@ class Plan:
     def hostile_variant_names(self):
         rng = self.rng
         pools = [["None", "Some", "Ok", "Err", "Error", "Item"], ["Option", "Result", "Iterator", "IntoIterator", "Default", "Output"],
-                 ["Self_", "Copy", "Clone", "From", "Into", "Debug", "Display", "FromStr", "TryFrom"], ["Err", "Error"], ["Item", "IntoIter", "Iter"]]
+                 ["Self_", "Copy", "Clone", "From", "Into", "Debug", "Display", "FromStr", "TryFrom"], ["Err", "Error"], ["Item", "IntoIter", "Iter"],
+                 # variants named like the constants the derive can generate, in configurations that do NOT request those constants
+                 # (the helper constants behind next / next_back / iter must not be confused with the variants)
+                 ["COUNT", "MIN", "MAX", "SUM", "AVG"]]
         for k, idents in enumerate(pools):
             for r, gap in (("i8", True), ("u16", False)):
                 n = len(idents)
@@ -647,6 +694,8 @@ class Plan:
                 for lab, cfg in kappa_list(gapless):
                     if lab in ("auto_norange", "mixed1"):
                         continue
+                    if "MIN" in idents:
+                        cfg = {"feats": [(f, pr) for f, pr in cfg["feats"] if f not in ("MIN", "MAX")], "split": cfg.get("split", "one")}
                     cases = [self.new_case(r, plain, cfg, script, f"vname:{lab}:plain"), self.new_case(r, hostile, cfg, script, f"vname:{lab}:hostile{k}")]
                     self.add_group("C16", cases, "contexts")
 
@@ -768,6 +817,7 @@ class Plan:
     def alias_shapes(self):
         rng = self.rng
         shapes = []
+        small = set()
         for r, k in (("u64", 32), ("i64", 32), ("u128", 32), ("isize", 32), ("u32", 16), ("i32", 16), ("u32", 8), ("u16", 8), ("i64", 16), ("i128", 8)):
             for m, base in ((3, 0), (4, 5), (2, 1)):
                 if prim.signed(r) and rng.random() < 0.5:
@@ -789,8 +839,12 @@ class Plan:
                          ("usize", [0, 1, (1 << 32) - 1, 1 << 32, (1 << 32) + 5]), ("isize", [(1 << 31) - 3, (1 << 31) - 2, (1 << 31) - 1]),
                          ("isize", [-(1 << 31), -(1 << 31) + 1, -(1 << 31) + 2]), ("isize", [-(1 << 31) - 1, -(1 << 31), 0, (1 << 31) - 1, 1 << 31]),
                          ("usize", [(1 << 32) + 70_000, (1 << 32) + 70_001, (1 << 32) + 70_007]), ("u64", [(1 << 32) - 2, (1 << 32) - 1, 1 << 32]),
-                         ("i64", [(1 << 31) - 1, 1 << 31, (1 << 31) + 1])):
+                         ("i64", [(1 << 31) - 1, 1 << 31, (1 << 31) + 1]),
+                         # at most 8 guessed bytes: the inline-table / packed paths of small enums
+                         ("usize", [7, (1 << 32) + 7]), ("isize", [-(1 << 32) - 7, 5]), ("usize", [(1 << 32) - 1, 1 << 32]), ("isize", [-(1 << 31) - 1]),
+                         ("u64", [(1 << 32) + 7]), ("u32", [7, (1 << 16) + 7]), ("u16", [7, 256 + 7, 519, 1000])):
             shapes.append((r, reals))
+            small.add((r, tuple(reals)))
         for r, reals in shapes:
             vs = decorate(reals, r, rng, rng.choice(["ident", "renames"]), rng.choice(["asc", "shuffle"]), "dec")
             p = prim.Proj(r, True)
@@ -798,7 +852,8 @@ class Plan:
                             | {p.model_tmin(), p.model_tmax()})
             script = make_script(vs, r, probes, rng, level="light", str_cap=8, pow2=True)
             cases = []
-            for lab, cfg in kappa_list(runs_of(reals) == 1)[:3]:
+            ks = kappa_list(runs_of(reals) == 1)
+            for lab, cfg in (ks[:3] if (r, tuple(reals)) not in small else [k for k in ks if k[0] in ("match_nab", "table_table", "auto", "inline", "auto_norange")]):
                 c = self.new_case(r, vs, cfg, script, f"alias:{lab}")
                 c["pow2"] = True
                 cases.append(c)
@@ -897,6 +952,7 @@ def build_plan(tier, seed):
         pl.config_matrix(n_sparse=10)
         pl.sorted_cfgs(6)
         pl.names_fixed()
+        pl.solo_cfgs()
         pl.raw_idents()
         pl.alias_shapes()
         pl.perms_reprs(30)
@@ -919,6 +975,7 @@ def build_plan(tier, seed):
         pl.config_matrix(n_sparse=60)
         pl.sorted_cfgs(60)
         pl.names_fixed()
+        pl.solo_cfgs()
         pl.raw_idents()
         pl.alias_shapes()
         pl.perms_reprs(150)
